@@ -332,6 +332,33 @@ def real_block_network(rep: Report, rng: random.Random, count: int):
                           f"bound {2 * np.asarray(bound)}")
 
 
+def apalache_inductive(rep: Report):
+    """Optional extra (DESIGN 3.3): the bracket invariant of the scalar search as an INDUCTIVE invariant over unbounded
+    integers (any interval, any root, any number of expansions), discharged by Apalache: IndInit /\\ Next => IndInv' and
+    Init => IndInv.  A failure of the tool is recorded, never reported as a violation."""
+    import shutil
+    import subprocess
+    import tempfile
+    out = {}
+    wd = tempfile.mkdtemp(prefix="flowjax-verif-apa-", dir="/dev/shm" if os.path.isdir("/dev/shm") else None)
+    try:
+        shutil.copy(tlc.TLA_DIR / "apalache" / "BisectionInd.tla", wd)
+        for name, args in (("inductive_step", ["--init=IndInit", "--inv=IndInv", "--length=1"]),
+                           ("base_case", ["--init=Init", "--inv=IndInv", "--length=0"])):
+            p = subprocess.run(["timeout", "400", "apalache-mc", "check", *args, f"--out-dir={wd}/out", "BisectionInd.tla"],
+                               cwd=wd, stdout=subprocess.PIPE, stderr=subprocess.STDOUT, text=True)
+            out[name] = "OK" if "EXITCODE: OK" in p.stdout else ("violated" if "violat" in p.stdout.lower() else f"tool failure rc={p.returncode}")
+    except Exception as e:  # noqa: BLE001
+        out["error"] = f"{type(e).__name__}: {e}"
+    finally:
+        shutil.rmtree(wd, ignore_errors=True)
+    rep.set("apalache_inductive_invariant_Bracket", out)
+    if "violated" in out.values():
+        rep.machinery_failure(f"Apalache refutes the inductive bracket invariant of BisectionInd.tla: {out}")
+    elif any(v != "OK" for v in out.values()):
+        rep.note(f"Apalache inductive check not completed ({out}); the bounded TLC result stands on its own")
+
+
 def float32_pass(rep: Report, count: int, traces: list):
     """The same randomised runs with jax_enable_x64 off (the library's default dtype), in a subprocess."""
     import subprocess
@@ -390,6 +417,7 @@ def main():
         rep.set("states", 1), rep.set("transitions", 1), rep.set("traces_validated_against_impl", 1)
         return rep.finish()
     model_check(rep, thorough)
+    apalache_inductive(rep)
     r1 = tlc.run("Bisection", "MC_Bisection_emit.cfg", workers=4, coverage=False)
     r2 = tlc.run("Bisection", "MC_Bisection_emit2d.cfg", workers=4, coverage=False)
     rep.set("tlc_cases_emitted", {"dim1": len(r1.cases), "dim2": len(r2.cases)})
